@@ -1,6 +1,6 @@
 """Shared rule helpers: term matchers, refusal (SEP) instances, loop-shape rule, call inventories."""
 from . import guards
-from .guards import branch_facts, sep, fail_is_error, ok_sinks, call_sinks, ret_writes
+from .guards import peel_result, ok_facts_of_value, then_cond, branch_facts, sep, fail_is_error, ok_sinks, call_sinks, ret_writes
 from .mir import callee_of, is_bare
 from .terms import TermCx, fmt, is_call, is_field, strip_casts, mentions, subterms, short, INT_BITS
 
@@ -194,13 +194,21 @@ def lifted_facts(prog, H, args, frames, depth=0):
             out.append(fa)
             if depth < LIFT_DEPTH and fa[0] == "succ" and fa[2]:
                 out += _lift_call(prog, fa[1], frames, depth + 1)
+    # a value returned as it is (`cond.then_some(()).ok_or(E)` / `helper(..)` in tail position): if that is the only
+    # successful exit, whatever makes that value Ok holds on success
+    tails = [(b, k, rv) for (b, k, rv) in ret_writes(H) if b in oks]
+    if len(tails) == 1 and tails[0][1] in ("call", "other"):
+        b, k, rv = tails[0]
+        T = cx.call(rv, cx.site(b)) if k == "call" else cx.rvalue(rv, (H.key, b, 0))
+        out += ok_facts_of_value(T)
+        if depth < LIFT_DEPTH:
+            out += _lift_call(prog, T, frames, depth + 1)
     _lift_cache[key] = out
     return out
 
 
 def _lift_call(prog, X, frames, depth):
-    while isinstance(X, tuple) and X and X[0] in ("map_err", "ok_or"):
-        X = X[1]
+    X = peel_result(X)
     if not (isinstance(X, tuple) and X and X[0] == "call"):
         return []
     H = prog.fns.get(X[1])
@@ -215,28 +223,28 @@ _lift_cache = {}
 
 
 class FnView:
-    """per-function cache of terms and branch facts (with facts lifted out of called workspace helpers)"""
+    """per-function cache of terms and branch facts (with facts lifted out of called workspace helpers).
+    With `argsub` the terms are expressed in the vocabulary of a caller (helper / closure seen from its call site)."""
     _cache = {}
 
-    def __init__(self, prog, fn):
+    def __init__(self, prog, fn, argsub=None, frames=()):
         self.prog = prog
         self.fn = fn
-        self.cx = TermCx(prog, fn)
-        self.facts = branch_facts(prog, fn, self.cx)
+        self.frames = frames
+        self.cx = TermCx(prog, fn, argsub, 1 if argsub is not None else 0, frames=frames) if (argsub is not None or frames) else TermCx(prog, fn)
+        self.own_facts = branch_facts(prog, fn, self.cx)
+        self.facts = list(self.own_facts)
         extra = []
         for (e, fa) in self.facts:
             if fa[0] == "succ" and fa[2]:
-                X = fa[1]
-                Y = X
-                while isinstance(Y, tuple) and Y and Y[0] in ("map_err",):
-                    Y = Y[1]
+                Y = peel_result(fa[1])
                 if isinstance(Y, tuple) and Y and Y[0] == "call" and Y[1] in prog.fns and Y[1] != fn.key:
                     H = prog.fns[Y[1]]
                     if H.has_body and H.crate.startswith("frost"):
-                        for lf in _lift_call(prog, Y, (), 0):
+                        for lf in _lift_call(prog, Y, frames, len(frames)):
                             extra.append((e, lf))
         self.facts = self.facts + extra
-        self.facts = self.facts + flag_facts(fn, self.facts)
+        self.facts = self.facts + flag_facts(fn, self.facts, self.cx)
 
     @classmethod
     def get(cls, prog, fn):
@@ -259,7 +267,7 @@ class FnView:
         return out
 
 
-def flag_facts(fn, facts):
+def flag_facts(fn, facts, cx=None):
     """A boolean local assigned only constants, each assignment sitting exclusively under some edges of one earlier switch
     (`let stop = matches!(mode, FirstCheater)`): a later test of the flag carries the facts of those edges.  Several
     variant facts on one edge mean "one of these" (as on an `otherwise` edge)."""
@@ -273,6 +281,18 @@ def flag_facts(fn, facts):
             continue
         L = fa[2][1][1]
         ds = fn.defs().get(L, [])
+        if cx is not None and ds and all(d[0] in ("assign", "call") for d in ds) and not any(
+                d[0] == "assign" and d[3]["k"] == "use" and "const" in d[3]["op"] for d in ds):
+            # a flag computed by a different comparison on each incoming path (`let ok = if a { x == y } else { u == w }`):
+            # on an edge of the test, the comparison of whichever definition reached it has that truth value
+            from .guards import norm_cond
+            subs = []
+            for d in ds:
+                t = cx.rvalue(d[3], (fn.key, d[1], d[2])) if d[0] == "assign" else cx.call(d[2], cx.site(d[1]))
+                kind, a, b, pos = norm_cond(t)
+                subs.append(("cond", kind, a, b, fa[4] == pos))
+            out.append((e, ("all", tuple(subs))))
+            continue
         vals = {}
         bad = False
         for d in ds:
@@ -342,24 +362,13 @@ def refusal(ctx, fn, rule, what, mechanisms, sinks, width=None, require_fail_err
     """SEP instance.  mechanisms: list of (name, fact-matcher).  Every path from `start` to a sink must cross a PASS
     edge of some mechanism whose FAIL side refuses (returns only Err)."""
     v = FnView.get(ctx.prog, fn)
-    pass_edges = set()
-    found = []
-    for name, m in mechanisms:
-        n = 0
-        for (edge, fact) in v.facts:
-            r = m(fact)
-            if r is None:
-                continue
-            # the same switch yields both edges; take PASS edges only if the FAIL side refuses
-            sw = edge[0]
-            fails = [e for (e, f2) in v.facts if e[0] == sw and m(f2) == "fail"]
-            if require_fail_err and not all(fail_is_error(fn, e, sinks) for e in fails):
-                continue
-            if r == "pass":
-                pass_edges.add(edge)
-                n += 1
-        if n:
-            found.append(name)
+    pass_edges, found = pass_edges_of(ctx.prog, v, mechanisms, sinks, require_fail_err)
+    guarded = guarded_sinks(ctx.prog, v, mechanisms, sinks, require_fail_err)
+    all_sinks = set(sinks)
+    sinks = all_sinks - guarded
+    if not sinks and all_sinks and (found or guarded):
+        ctx.ok(rule, fn.key, what, {"mechanisms": found, "note": "every successful exit returns a value that is Ok only if the check holds"})
+        return True
     sinks = set(sinks)
     if not sinks:
         ctx.violation(rule, fn.key, what + ":sink-missing",
@@ -384,6 +393,98 @@ def refusal(ctx, fn, rule, what, mechanisms, sinks, width=None, require_fail_err
     ctx.ok(rule, fn.key, what, {"mechanisms": found, "pass_edges": sorted(pass_edges)[:6],
                                 "sinks": [loc_of(fn, b) for b in sorted(sinks)][:6]})
     return True
+
+
+def helper_call(prog, fn, X):
+    """X (a Result/Option term, plumbing peeled) is a call to a workspace function with a body: that function"""
+    Y = peel_result(X)
+    if isinstance(Y, tuple) and Y and Y[0] == "call" and Y[1] in prog.fns and Y[1] != fn.key:
+        H = prog.fns[Y[1]]
+        if H.has_body and H.crate.startswith("frost"):
+            return H, Y
+    return None, None
+
+
+def success_sinks(H):
+    out_ty = H.j.get("output") or ""
+    if out_ty.startswith("core::option::Option<"):
+        return {b for (b, k, rv) in ret_writes(H) if not (k == "other" and rv.get("k") == "agg" and rv.get("variant") == "None")}
+    return ok_sinks(H)
+
+
+def pass_edges_of(prog, v, mechanisms, sinks, require_fail_err=True, depth=0):
+    """PASS edges of the mechanisms in the function of view v: (i) branch edges whose fact matches and whose FAIL side
+    refuses; (ii) the success edge of `helper(..)?` when, inside the helper (seen with the call's arguments), every path to a
+    successful return crosses a PASS edge — an extracted group of validations is followed into the helper."""
+    fn = v.fn
+    pass_edges = set()
+    found = []
+    # a conjunction fact ("all", facts) passes only if, for every member, some mechanism passes (whichever definition of
+    # the tested flag reached the edge, its comparison was one of the recognised checks)
+    any_m = lambda fa: ("pass" if any(m_(fa) == "pass" for _, m_ in mechanisms) else
+                        "fail" if any(m_(fa) == "fail" for _, m_ in mechanisms) else None)
+    mechanisms = [(name, (lambda fa, m=m: (None if not fa[1] else
+                                           "pass" if all(any_m(x) == "pass" for x in fa[1]) else
+                                           "fail" if all(any_m(x) == "fail" for x in fa[1]) else None)
+                          if fa[0] == "all" else m(fa))) for name, m in mechanisms]
+    for name, m in mechanisms:
+        n = 0
+        for (edge, fact) in v.facts:
+            r = m(fact)
+            if r is None:
+                continue
+            # the same switch yields both edges; take PASS edges only if the FAIL side refuses
+            sw = edge[0]
+            fails = [e for (e, f2) in v.facts if e[0] == sw and m(f2) == "fail"]
+            if require_fail_err and not all(fail_is_error(fn, e, sinks) for e in fails):
+                continue
+            if r == "pass":
+                pass_edges.add(edge)
+                n += 1
+        if n:
+            found.append(name)
+    if depth < LIFT_DEPTH:
+        for (edge, fact) in v.own_facts:
+            if not (fact[0] == "succ" and fact[2]) or edge in pass_edges:
+                continue
+            H, Y = helper_call(prog, fn, fact[1])
+            if H is None:
+                continue
+            hv = FnView(prog, H, {i + 1: a for i, a in enumerate(Y[2])}, v.frames + (Y[3],))
+            hs = success_sinks(H)
+            pe, fnd = pass_edges_of(prog, hv, mechanisms, hs, require_fail_err, depth + 1)
+            hs = hs - guarded_sinks(prog, hv, mechanisms, hs, require_fail_err, depth + 1)
+            if fnd and not sep(H, pe, hs):
+                fails = [e for (e, f2) in v.own_facts if e[0] == edge[0] and f2[0] == "succ" and f2[1] == fact[1] and not f2[2]]
+                if require_fail_err and not all(fail_is_error(fn, e, sinks) for e in fails):
+                    continue
+                pass_edges.add(edge)
+                found += [n_ + " (in %s)" % H.name for n_ in fnd]
+    return pass_edges, found
+
+
+def guarded_sinks(prog, v, mechanisms, sinks, require_fail_err=True, depth=0):
+    """successful exits that return a value as it is (`cond.then_some(x).ok_or(E)`, `helper(..)`): guarded when that value
+    is Ok only if some mechanism's check passed"""
+    fn = v.fn
+    out = set()
+    for (b, k, rv) in ret_writes(fn):
+        if b not in sinks or k not in ("call", "other"):
+            continue
+        T = v.cx.call(rv, v.cx.site(b)) if k == "call" else v.cx.rvalue(rv, (fn.key, b, 0))
+        if any(m(fa) == "pass" for fa in ok_facts_of_value(T) for _, m in mechanisms):
+            out.add(b)
+            continue
+        if depth < LIFT_DEPTH:
+            H, Y = helper_call(prog, fn, T)
+            if H is not None:
+                hv = FnView(prog, H, {i + 1: a for i, a in enumerate(Y[2])}, v.frames + (Y[3],))
+                hs = success_sinks(H)
+                pe, fnd = pass_edges_of(prog, hv, mechanisms, hs, require_fail_err, depth + 1)
+                hs = hs - guarded_sinks(prog, hv, mechanisms, hs, require_fail_err, depth + 1)
+                if fnd and not sep(H, pe, hs):
+                    out.add(b)
+    return out
 
 
 # ---------------- loops / reductions ----------------
@@ -1026,7 +1127,7 @@ def err_inventory(prog, fn, table_keys=(), depth=0):
                 return True
             add("?:" + name)
             return True
-        if src[4] is not None or src[1].startswith("frost"):   # trait method on the ciphersuite / unresolved workspace call
+        if src[1].startswith(("frost", "<frost")):   # trait method on the ciphersuite / unresolved workspace call
             add("?:" + name)
             return True
         return None
@@ -1336,3 +1437,119 @@ def calls_on_paths(f, v, removed_edges, name):
     rpo = f.rpo()
     sites.sort(key=lambda b: rpo.get(b, 0))
     return [(bb, v.call_args(bb)) for bb in sites]
+
+
+COUNT_PRESERVING = {"iter", "into_iter", "map", "cloned", "copied", "rev", "enumerate", "values", "keys", "iter_mut", "by_ref", "inspect"}
+ELEMENT_LOOKUPS = {"min", "max", "first", "last", "split_first", "split_last", "min_by_key", "max_by_key", "min_by", "max_by", "next", "next_back"}
+
+
+def count_base(t):
+    """the collection whose elements a count-preserving iterator chain visits (one item per element)"""
+    while isinstance(t, tuple) and t:
+        if t[0] == "iter":
+            t = t[1]
+        elif t[0] == "call" and t[1].rsplit("::", 1)[-1] in COUNT_PRESERVING and t[2]:
+            t = t[2][0]
+        else:
+            break
+    return t
+
+
+def nonempty_lookup(base):
+    """matcher: an element look-up (min/max/first/last/..) on a count-preserving view of `base`: Some iff base is non-empty"""
+    return lambda t: isinstance(t, tuple) and t and t[0] == "call" and t[1].rsplit("::", 1)[-1] in ELEMENT_LOOKUPS and t[2] \
+        and base(count_base(t[2][0]))
+
+
+def on_every_success_path(f, bb):
+    """every successful return of f (Ok / Some / plain return) passes through block bb"""
+    from .guards import returns_result
+    ins = frozenset((p, bb) for (p, _l) in f.preds().get(bb, ()))
+    r = f.reach(0, removed=ins) if bb != 0 else set()
+    if returns_result(f):
+        sinks = {b for (b, k, _) in ret_writes(f) if k in ("ok", "call", "other")}
+    else:
+        sinks = {b for b in f.normal_blocks() if f.blocks[b].term["k"] == "return"}
+    return not (r & sinks)
+
+
+def per_item_bytes(P, f, v):
+    """f returns a byte vector that is the concatenation, over every element of one collection in order, of a fixed list of
+    per-element parts: dict(source, parts=[terms over ITEM], form) — for `for x in S { buf.extend_from_slice(..) }` and for
+    `S.iter().try_fold(Vec::new(), |mut buf, x| { buf.extend(..); Ok(buf) })` / `.fold(..)`.  None if any part can be skipped
+    or the traversal can stop early without an error."""
+    from .seq import flatten, _is_empty_ctor, EXTENDERS
+    oks = ok_values(f, v)
+    if len(oks) != 1:
+        return None
+    t = oks[0]
+    while t[0] == "ok":
+        t = t[1]
+    if t[0] == "mut" and _is_empty_ctor(t[1]):
+        ops = [o for o in t[2] if o[1] not in ("reserve",)]
+        if not ops or any(o[1] not in EXTENDERS or not o[2] for o in ops):
+            return None
+        for lp in loop_report(P, f):
+            if lp["iter_term"] is None or not all(o[3][0] != "inl" and o[3][-1] in lp["body"] for o in ops):
+                continue
+            it = lp["iter_term"]
+            if any(c == "break" for _, c in lp["exits"]):
+                return None
+            for o in ops:
+                _, back = body_reach(f, lp, list(lp["some_targets"]), removed_blocks={o[3][-1]})
+                if back:
+                    return None
+            item = lambda x, it=it: x[0] == "some" and is_call(x[1], name="next") and x[1][2] and x[1][2][0] == it
+            rpo = f.rpo()
+            parts = []
+            for o in sorted(ops, key=lambda o: rpo.get(o[3][-1], 0)):
+                parts += [subst(p, [(item, ITEM)]) for p in flatten(o[2][0])]
+            return {"source": strip_iter_calls(it), "parts": parts, "form": "loop"}
+        return None
+    if is_call(t) and t[1].rsplit("::", 1)[-1] in ("try_fold", "fold") and len(t[2]) == 3 and _is_empty_ctor(t[2][1]) and t[2][2][0] == "closure":
+        src, init, clo = t[2]
+        cf = P.fns.get(clo[1])
+        body = closure_body(P, clo, {2: ACC, 3: ITEM})
+        if cf is None or body is None or cf.loops():
+            return None
+        alts = body[2] if body[0] == "phi" else (body,)
+        vals = []
+        for a in alts:
+            if a[0] == "agg" and a[2] == "core::result::Result":
+                if a[3] == "Ok":
+                    vals.append(a[4][0][1])
+            elif a[0] not in ("residual", "errval"):
+                vals.append(a)
+        if len(vals) != 1 or vals[0][0] != "mut" or vals[0][1] != ACC:
+            return None
+        ops = [o for o in vals[0][2] if o[1] not in ("reserve",)]
+        if not ops or any(o[1] not in EXTENDERS or not o[2] for o in ops):
+            return None
+        parts = []
+        for o in ops:
+            site = o[3]
+            if site[0] == "inl" or site[0] != cf.key or not on_every_success_path(cf, site[-1]):
+                return None
+            parts += flatten(o[2][0])
+        sv = seq_view(src)
+        if sv is None or sv["adaptors"]:
+            return None
+        return {"source": sv["base"], "parts": parts, "form": t[1].rsplit("::", 1)[-1]}
+    return None
+
+
+def commitment_entry_parts(P):
+    """the unified per-entry view of round1::encode_group_commitments: (fn, view) or None and matchers for its parts"""
+    f = P.fns.get("frost_core::round1::encode_group_commitments")
+    if f is None or not f.has_body:
+        return None, None
+    return f, per_item_bytes(P, f, FnView.get(P, f))
+
+
+def entry_part(which):
+    """matcher over ITEM for the encoded parts of a commitment-list entry: 'identifier' | 'hiding' | 'binding'"""
+    if which == "identifier":
+        return lambda x: is_call(x, name="serialize") and mentions(x[2][0], lambda s: s == ("field", ITEM, None, "0")) and \
+            not mentions(x[2][0], lambda s: s == ("field", ITEM, None, "1"))
+    return lambda x: x[0] == "ok" and is_call(x[1], name="serialize") and \
+        mentions(x[1][2][0], lambda s: is_field(s, "SigningCommitments", which) and s[1] == ("field", ITEM, None, "1"))
